@@ -19,7 +19,7 @@ RULE = ('E1 exhaustive product: container {SEQUENCE, SET} x governor type {INTEG
         '{ANY, [3] IMPLICIT ANY, [3] EXPLICIT ANY, SET OF ANY, SEQUENCE OF ANY} x 8 mapped inner types (INTEGER, OCTET '
         'STRING, BOOLEAN, SEQUENCE{a,b OPT}, SEQUENCE OF INTEGER, [5] EXPLICIT INTEGER, SET OF OCTET STRING, empty '
         'SEQUENCE) x 2 inner values x governing value {mapped, unmapped} x codec {BER definite, BER indefinite, CER, '
-        'DER} x decodeOpenTypes {on, off} x openTypes override {absent, present and disagreeing with the default map}. '
+        'DER} x decodeOpenTypes {on, off} x openTypes override {absent, present and disagreeing with the default map, present but silent about this governing value, schema map filled in after the schema was built}. '
         'Oracle: with resolution on and a mapped governing value the field reads back as the inner abstract value '
         'under the mapped type; otherwise the field holds exactly the complete encoding (same codec) of the inner '
         'value. Non-trivial = every case; distinct = digest of the full configuration.')
@@ -38,6 +38,9 @@ INNER = [
     (U.E(5, U.INT), [7, 0]),
     (('SETOF', U.OCTS), [[b'b', b'a'], [b'x']]),
     (('SEQ', ()), [{}]),
+    # inner types whose own outer tag coincides with the tag of a tagged open-type field
+    (U.I(3, U.INT), [5]),
+    (U.E(3, U.OCTS), [b'in']),
 ]
 CODECS = {
     'ber-def': (lambda o, **kw: ber_enc.encode(o, **kw), ber_dec.decode, 'der'),
@@ -90,7 +93,9 @@ def configs():
                         for mapped in (True, False):
                             for codec in CODECS:
                                 for resolve in (True, False):
-                                    for override in (False, True):
+                                    for override in (False, True, 'partial', 'late'):
+                                        if override in ('partial', 'late') and not (resolve and mapped):
+                                            continue
                                         yield container, gov, shape, k, IT, iv, mapped, codec, resolve, override
 
 
@@ -107,10 +112,12 @@ def check(idx, cfg, R):
     R.nontrivial(repr(cfg))
     feats = {'container:' + container, 'gov:' + gov, 'shape:' + shape, 'codec:' + codec,
              'resolve' if resolve else 'noresolve', 'mapped' if mapped else 'unmapped',
-             'override' if override else 'no_override',
+             {False: 'no_override', True: 'override', 'partial': 'partial_override', 'late': 'late_map'}[override],
              'inner:' + ('constructed' if M.base_of(IT)[0] in ('SEQ', 'SET', 'SEQOF', 'SETOF') or IT[0] == 'TAG' else 'primitive')}
     if IT[0] == 'TAG' and IT[1] == 'E' and M.base_of(IT)[0] in ('INT', 'BOOL', 'NULL', 'OID', 'REAL', 'ENUM') and codec in ('ber-indef', 'cer'):
         feats.add('kf:K1')        # the inner value's own encoding carries the recorded stray end-of-octets
+    if IT[0] == 'TAG' and (IT[2], IT[3]) == ('C', 3) and shape in ('any-implicit', 'any-explicit', 'setof-any-implicit', 'seqof-any-explicit'):
+        feats.add('inner_tag_equals_field_tag')
     rec = {'cfg': [container, gov, shape, k, mapped, codec, resolve, override], 'inner_T': IT, 'inner_v': iv}
     keyfn = GOV[gov][1]
     true_map = {}
@@ -118,7 +125,15 @@ def check(idx, cfg, R):
         key = keyfn(j)
         true_map[univ.ObjectIdentifier(key) if gov == 'oid' else key] = B.to_spec(T2, cache=False)
     govval = keyfn(k) if mapped else UNMAPPED[gov]
-    if override:
+    late = None
+    if override == 'partial':
+        # the caller's map knows other governing values only: the schema's own map still answers for this one
+        other = [key for key in true_map if true_map[key] is not true_map.get(univ.ObjectIdentifier(govval) if gov == 'oid' else govval)]
+        default_map, openTypes = true_map, {other[0]: univ.Null(), other[-1]: univ.Boolean()}
+    elif override == 'late':
+        # the map handed to OpenType() is filled in after the schema was built (stored by reference, documented)
+        default_map, openTypes, late = {}, None, true_map
+    elif override:
         # the default map disagrees: it maps every key to the *next* inner type; the override is right
         wrong = {}
         keys = list(true_map)
@@ -129,6 +144,8 @@ def check(idx, cfg, R):
         default_map, openTypes = true_map, None
     try:
         schema = make_schema(container, gov, shape, default_map)
+        if late is not None:
+            default_map.update(late)
         val = schema.clone()
         val['id'] = govval
         inner_obj = B.build(IT, iv, B.to_spec(IT, cache=False))
